@@ -1395,6 +1395,27 @@ func main() {
 			fail("close sites: found %d of the %d named shutdown closes", found, len(named))
 		}
 		def("close_sites", "list (string * string * bool)", c.String(), "the close(ch) of every shutdown path that several goroutines can reach: (function, channel, closes-at-most-once guard present)")
+		// the done channel of a pending broker entry: every function that closes one, and whether it does so under the entry's once
+		{
+			var pc strings.Builder
+			pc.WriteString("[\n")
+			k := 0
+			for _, cs := range la.closes {
+				if cs.ch != "p.doneCh" {
+					continue
+				}
+				if k > 0 {
+					pc.WriteString(";\n")
+				}
+				k++
+				fmt.Fprintf(&pc, "  (%q, %q, %s)", cs.fn, cs.ch, coqBool(cs.guard == "once"))
+			}
+			pc.WriteString("\n]%string")
+			if k < 2 {
+				fail("pending close sites: found %d closes of a pending entry's done channel", k)
+			}
+			def("pending_close_sites", "list (string * string * bool)", pc.String(), "every close of a pending broker entry's done channel (an entry can be handed a second connection while it awaits removal, so its taker is not unique): (function, channel, under the entry's sync.Once)")
+		}
 		atomicIDs := true
 		for _, k := range []string{"MuxBroker.NextId", "GRPCBroker.NextId"} {
 			fd := la.funcs[k]
